@@ -238,6 +238,55 @@ def r1(ctx):
                 key=fs.full + ' | zero gap')
 
 
+_REDUCE = ('np.max', 'np.amax', 'max', 'np.nanmax', 'np.any', 'any')
+_ABS = ('np.abs', 'abs', 'np.absolute', 'np.fabs')
+
+
+def _norm_test(test):
+    """None if the loop test compares a norm of a difference with the
+    tolerance (reduction outside, absolute value inside); else the reason."""
+    t = test
+    if isinstance(t, ast.BoolOp):
+        parts = [x for x in t.values if any(
+            isinstance(c, ast.Call) and (call_name(c) in _REDUCE + _ABS)
+            for c in ast.walk(x))]
+        if len(parts) != 1:
+            return 'test shape'
+        t = parts[0]
+    if not (isinstance(t, ast.Compare) and len(t.ops) == 1):
+        return 'not a comparison with the tolerance'
+    lhs = t.left
+    # np.any(np.abs(d) > tol) form
+    if isinstance(lhs, ast.Call) and call_name(lhs) in ('np.any', 'any'):
+        inner = lhs.args[0] if lhs.args else None
+        if isinstance(inner, ast.Compare):
+            lhs = inner.left
+            red = True
+        else:
+            return 'any() of a non-comparison'
+    elif isinstance(lhs, ast.Call) and (
+            call_name(lhs) in _REDUCE or (isinstance(lhs.func, ast.Attribute)
+                                          and lhs.func.attr == 'max')):
+        red = True
+        lhs = lhs.args[0] if lhs.args else lhs.func.value
+    elif isinstance(lhs, ast.Call) and call_name(lhs) in (
+            'np.linalg.norm',):
+        return None
+    else:
+        if isinstance(lhs, ast.Call) and call_name(lhs) in _ABS and any(
+                isinstance(c, ast.Call) and call_name(c) in _REDUCE
+                for c in ast.walk(lhs)):
+            return 'the absolute value is taken after the reduction: ' \
+                   '|max(d)| ignores pins whose change is negative'
+        return 'no reduction over the pins'
+    if not (isinstance(lhs, ast.Call) and call_name(lhs) in _ABS):
+        return 'the reduction is applied to a signed difference'
+    d = lhs.args[0] if lhs.args else None
+    if not (isinstance(d, ast.BinOp) and isinstance(d.op, ast.Sub)):
+        return 'not a difference of two iterates'
+    return None
+
+
 def r2(ctx):
     repo = ctx.repo
     n = 0
@@ -249,6 +298,14 @@ def r2(ctx):
                   if isinstance(x, ast.While)]:
             ok, why = U.bounded_loop(fi, w, g)
             n += 1
+            why_norm = _norm_test(w.test)
+            ctx.require(why_norm is None, 'C13.R2', fi, w.test,
+                        'the conductivity iteration must run until the '
+                        'change of *every* pin is within tolerance: the '
+                        'convergence measure has to be a norm, max(|T_new - '
+                        'T_old|) > tol (%s)' % why_norm,
+                        key='%s | convergence norm line-independent %d'
+                        % (fi.full, n))
             ctx.require(ok, 'C13.R2', fi, w.test,
                         'conductivity iteration is not provably bounded: '
                         + why, note=why, key='%s | bounded loop' % fi.full)
